@@ -22,6 +22,7 @@ def plan(tier):
     q = [
         {"h": "sym_rollback_1_1", "sym": "one successful definition; failed evaluation defines f1 in {1,2,3}"},
         {"h": "sym_rollback_redef_1", "sym": "name 1 defined twice; failed evaluation defines f1 in {1,2,3}"},
+        {"h": "sym_rollback_redef_twice", "sym": "name 1 defined three times; failed evaluation defines f1 in {1,2,3}"},
         {"h": "sym_recycled_slot_reuse", "sym": "a != b, c in {1,2,3}"},
         {"h": "sym_rollback_with_recycled_slot", "sym": "f in {1,2,3}",
          "classify": {KF_RESIDUE: r"reused a released slot"}, "known": {KF_RESIDUE: "sym_rollback_with_recycled_slot__kf"}},
